@@ -269,8 +269,10 @@ def check_release(case, rec):
                 # a new graph epoch built on a tensor the caller kept (a leaf, or a view that the first backward
                 # disconnected and that now acts as a base of its own): a fresh view of it takes part in a loss;
                 # the view's gradient must be there, be the loss's gradient, and be a view of its base's gradient
+                # (not views whose elements overlap in memory - broadcast_to: there "the view of the base's gradient" is
+                #  not the loss's gradient with respect to the view's elements)
                 pool2 = [t for t in run.env.values() if isinstance(t, mg.Tensor) and not t.constant and t.dtype.kind == "f"
-                         and t.ndim >= 1 and t.size > 0]
+                         and t.ndim >= 1 and t.size > 0 and not any(st_ == 0 and n > 1 for st_, n in zip(t.data.strides, t.shape))]
                 if not pool2:
                     continue
                 t = pool2[(pk // 3) % len(pool2)]
